@@ -49,6 +49,7 @@ struct Client {
 	std::map<std::string, std::map<std::string, JV>> replica;  // fetch id (dumped) -> path -> value
 	std::map<std::string, int> replica_state;                   // fetch id -> 0 requested,1 active,2 unfetched
 	std::map<std::string, int> ledger;                          // id dump -> outstanding count (ledger mode)
+	std::map<std::string, long> ledger_turn;                    // id dump -> event-loop turn in which the request was consumed
 	uint64_t frames_out = 0, msgs_in = 0, reply_serial = 0;
 	bool is_canary = false; int canary_step = 0;
 	bool msg_done_turn = false;                       // faulty peers: at most one complete message per event-loop turn
@@ -79,7 +80,7 @@ struct World : KernelHooks, ModelHost {
 	bool started = false;              // first epoll_wait seen: baseline recorded
 	// baselines (C07)
 	size_t base_alloc = 0; uint64_t base_live_blocks = 0, base_live_bytes = 0; int base_peers = 0; int base_open_fds = 0; int base_epoll = 0;
-	std::vector<int> base_fds;
+	std::vector<int> base_fds; uint64_t base_last_seq = 0;
 	std::vector<std::string> logs;
 	std::vector<std::string> secrets;  // passwords that must never be written or logged
 	std::map<int, int> matched_optional; // decision -> count
@@ -103,6 +104,8 @@ struct World : KernelHooks, ModelHost {
 	void hygiene(const std::string &rule, const std::string &detail) override;
 	void on_log(int pri, const std::string &line) override;
 	void on_file_op(const char *op, long result) override;
+	void on_alloc_fail(uint64_t index) override;
+	long fault_turn = -1; uint64_t faults_fired = 0; long canary_turn = -1;
 	// ModelHost
 	void expect(int c, const Exp &e) override;
 	uint64_t vnow() override { return now; }
